@@ -209,3 +209,60 @@ pub fn vx_ends_with(x: &[u8], p: &[u8]) -> (r: bool)
 pub fn vx_debug_assert(b: bool)
     requires b
 {}
+
+// ---- ASCII classes (rule R11: std's u8::is_ascii_* are specified, not verified) and `.iter().all(..)` helpers (rule R15)
+pub open spec fn is_upper(c: u8) -> bool { 65 <= c <= 90 }
+pub open spec fn is_lower(c: u8) -> bool { 97 <= c <= 122 }
+pub open spec fn is_alpha(c: u8) -> bool { is_upper(c) || is_lower(c) }
+pub open spec fn is_digit(c: u8) -> bool { 48 <= c <= 57 }
+pub open spec fn is_alnum(c: u8) -> bool { is_alpha(c) || is_digit(c) }
+pub open spec fn is_hexdigit(c: u8) -> bool { is_digit(c) || (65 <= c <= 70) || (97 <= c <= 102) }
+
+pub assume_specification[ u8::is_ascii_alphabetic ](c: &u8) -> (r: bool) ensures r == is_alpha(*c);
+pub assume_specification[ u8::is_ascii_alphanumeric ](c: &u8) -> (r: bool) ensures r == is_alnum(*c);
+pub assume_specification[ u8::is_ascii_digit ](c: &u8) -> (r: bool) ensures r == is_digit(*c);
+pub assume_specification[ u8::is_ascii_hexdigit ](c: &u8) -> (r: bool) ensures r == is_hexdigit(*c);
+pub assume_specification[ u8::is_ascii_uppercase ](c: &u8) -> (r: bool) ensures r == is_upper(*c);
+
+pub fn vx_all_digit(x: &[u8]) -> (r: bool)
+    ensures r == forall|k: int| 0 <= k < x.len() ==> is_digit(#[trigger] x@[k])
+{
+    let mut i: usize = 0;
+    while i < x.len()
+        invariant i <= x.len(), forall|k: int| 0 <= k < i ==> is_digit(#[trigger] x@[k]),
+        decreases x.len() - i
+    {
+        if !x[i].is_ascii_digit() { return false; }
+        i += 1;
+    }
+    true
+}
+
+pub fn vx_all_hexdigit(x: &[u8]) -> (r: bool)
+    ensures r == forall|k: int| 0 <= k < x.len() ==> is_hexdigit(#[trigger] x@[k])
+{
+    let mut i: usize = 0;
+    while i < x.len()
+        invariant i <= x.len(), forall|k: int| 0 <= k < i ==> is_hexdigit(#[trigger] x@[k]),
+        decreases x.len() - i
+    {
+        if !x[i].is_ascii_hexdigit() { return false; }
+        i += 1;
+    }
+    true
+}
+
+// `.all(|c| c.is_ascii_alphanumeric() || *c == b1 [|| *c == b2])`
+pub fn vx_all_alnum_or2(x: &[u8], b1: u8, b2: u8) -> (r: bool)
+    ensures r == forall|k: int| 0 <= k < x.len() ==> (is_alnum(#[trigger] x@[k]) || x@[k] == b1 || x@[k] == b2)
+{
+    let mut i: usize = 0;
+    while i < x.len()
+        invariant i <= x.len(), forall|k: int| 0 <= k < i ==> (is_alnum(#[trigger] x@[k]) || x@[k] == b1 || x@[k] == b2),
+        decreases x.len() - i
+    {
+        if !(x[i].is_ascii_alphanumeric() || x[i] == b1 || x[i] == b2) { return false; }
+        i += 1;
+    }
+    true
+}
